@@ -1,6 +1,7 @@
 /-
   Helper lemmas for Proofs/C17.lean: the invariant of the handle reference counter (Model/Plugin.lean, part H) and
-  its preservation by the five primitive state changes out of which every operation of complex.cpp is composed.
+  its preservation by the five primitive state changes out of which every operation of complex.cpp is composed; the
+  ownership invariant of the store level (part S): every handle not yet destructed belongs to a live context.
 -/
 import BlocV.Model.Plugin
 
@@ -480,5 +481,257 @@ theorem run_inv {ops : List HOp} {s s' : HState} (hinv : Inv s) (h : run s ops =
       exact ih (step_spec hinv op h1).1 h
     · cases h
 
+
+/-! ### store level: who owns a live handle
+
+Every handle that has not been destructed sits in a value of a context that is still live. Kept by every store-level
+operation; `release` destructs exactly the handles of the contexts it deletes. No operation loses a context (the
+`createEnv` path on which an argument raises hands the runtime context back to the cache), so the invariant needs no
+exception. -/
+
+/-- The ownership invariant of part S. -/
+structure Owned (s : S.SState) : Prop where
+  len : s.owner.length = s.h.slots.length
+  own : ∀ (i : Nat) (c : Slot), s.h.slots[i]? = some c → c ≠ .gone → ∃ k, s.owner[i]? = some k ∧ s.ctxs[k]? = some .live
+
+theorem owned_init : Owned S.SState.init := by
+  constructor
+  · rfl
+  · intro i c h; simp [S.SState.init, HState.init] at h
+
+theorem new_slots {s s' : HState} (h : step s .new = .ok s') : s'.slots = s.slots ++ [.ref s.nobj] := by
+  simp only [step] at h; injection h with h; subst h; rfl
+
+theorem copy_slots {s s' : HState} {i : Nat} (h : step s (.copy i) = .ok s') : ∃ o, s'.slots = s.slots ++ [.ref o] := by
+  simp only [step] at h
+  split at h
+  · rename_i o _
+    unfold acquire at h
+    split at h
+    · cases h
+    · injection h with h; subst h
+      exact ⟨o, by simp⟩
+  · cases h
+  · cases h
+
+theorem dtor_slots {s s' : HState} {i : Nat} (h : step s (.dtor i) = .ok s') : s'.slots = s.slots.set i .gone := by
+  simp only [step] at h
+  split at h
+  · rename_i s1 hd
+    injection h with h; subst h
+    unfold drop at hd
+    split at hd
+    · split at hd
+      · cases hd
+      · split at hd <;> (injection hd with hd; subst hd; simp)
+    · cases hd
+    · cases hd
+  · cases h
+
+/-- `destructWhere`: no handle is added; a handle among the first `n` that survives belongs to a context outside `p`. -/
+theorem destructWhere_slots (p : Nat → Bool) (owner : List Nat) :
+    ∀ (n : Nat) (h h' : HState), S.destructWhere p owner n h = .ok h' →
+      h'.slots.length = h.slots.length ∧
+      ∀ (j : Nat) (c : Slot), h'.slots[j]? = some c → c ≠ .gone →
+        h.slots[j]? = some c ∧ (j < n → ∀ k, owner[j]? = some k → p k = false) := by
+  intro n
+  induction n with
+  | zero =>
+    intro h h' he
+    simp only [S.destructWhere] at he; injection he with he; subst he
+    exact ⟨rfl, fun j c hj _ => ⟨hj, fun hlt => absurd hlt (Nat.not_lt_zero _)⟩⟩
+  | succ n ih =>
+    intro h h' he
+    simp only [S.destructWhere] at he
+    split at he
+    · cases he
+    · rename_i h1 h1eq
+      obtain ⟨hl1, ih1⟩ := ih h h1 h1eq
+      split at he
+      · rename_i k c0 hown hlive
+        split at he
+        · rename_i hp
+          have hs := dtor_slots he
+          refine ⟨by rw [hs, List.length_set, hl1], ?_⟩
+          intro j c hj hc
+          rw [hs, List.getElem?_set] at hj
+          split at hj
+          · split at hj
+            · injection hj with hj; exact absurd hj.symm hc
+            · cases hj
+          · rename_i hne
+            obtain ⟨a, b⟩ := ih1 j c hj hc
+            refine ⟨a, fun hlt => b (by omega)⟩
+        · rename_i hp
+          injection he with he; subst he
+          refine ⟨hl1, ?_⟩
+          intro j c hj hc
+          obtain ⟨a, b⟩ := ih1 j c hj hc
+          refine ⟨a, fun hlt k' hk' => ?_⟩
+          rcases Nat.lt_or_ge j n with hjn | hjn
+          · exact b hjn k' hk'
+          · have : j = n := by omega
+            subst this
+            rw [hown] at hk'; injection hk' with hk'; subst hk'
+            simpa using hp
+      · rename_i hno
+        injection he with he; subst he
+        refine ⟨hl1, ?_⟩
+        intro j c hj hc
+        obtain ⟨a, b⟩ := ih1 j c hj hc
+        refine ⟨a, fun hlt k' hk' => ?_⟩
+        rcases Nat.lt_or_ge j n with hjn | hjn
+        · exact b hjn k' hk'
+        · have : j = n := by omega
+          subst this
+          have hl : liveSlot h1 j = some c := by
+            unfold liveSlot
+            rw [hj]
+            split
+            · rename_i heq; injection heq with heq; exact absurd heq hc
+            · rfl
+          exact absurd hl (hno k' c hk')
+
+theorem ctxLive_iff {s : S.SState} {k : Nat} : S.ctxLive s k = true ↔ s.ctxs[k]? = some .live := by
+  unfold S.ctxLive
+  cases h : s.ctxs[k]? with
+  | none => simp
+  | some c => cases c <;> simp
+
+theorem live_append {l : List S.CtxSt} {k : Nat} {x : S.CtxSt} (h : l[k]? = some .live) : (l ++ [x])[k]? = some .live := by
+  have hk : k < l.length := by
+    rcases Nat.lt_or_ge k l.length with h' | h'
+    · exact h'
+    · rw [List.getElem?_eq_none h'] at h; cases h
+  rw [List.getElem?_append_left hk]; exact h
+
+/-- appending a handle owned by a live context keeps the invariant -/
+theorem owned_push {s : S.SState} (ho : Owned s) {h' : HState} {x : Slot} {k : Nat} (hs : h'.slots = s.h.slots ++ [x])
+    (hk : s.ctxs[k]? = some .live) : Owned { s with h := h', owner := s.owner ++ [k] } := by
+  constructor
+  · simp [hs, ho.len]
+  · intro i c hi hc
+    simp only at hi ⊢
+    rw [hs] at hi
+    rcases Nat.lt_or_ge i s.h.slots.length with hlt | hge
+    · rw [List.getElem?_append_left hlt] at hi
+      obtain ⟨k', hk1, hk2⟩ := ho.own i c hi hc
+      refine ⟨k', ?_, hk2⟩
+      rw [List.getElem?_append_left (by rw [ho.len]; exact hlt)]; exact hk1
+    · rcases Nat.lt_or_ge s.h.slots.length i with hgt | hle
+      · rw [List.getElem?_eq_none (by simp; omega)] at hi; cases hi
+      · have : i = s.h.slots.length := by omega
+        subst this
+        refine ⟨k, ?_, hk⟩
+        rw [← ho.len]; simp
+
+theorem sstep_owned {s s' : S.SState} (ho : Owned s) (op : S.SOp) (h : S.sstep s op = .ok s') : Owned s' := by
+  cases op with
+  | newCtx =>
+    simp only [S.sstep] at h; injection h with h; subst h
+    exact ⟨ho.len, fun i c hi hc => by
+      obtain ⟨k, h1, h2⟩ := ho.own i c hi hc
+      exact ⟨k, h1, live_append h2⟩⟩
+  | childCtx k =>
+    simp only [S.sstep] at h
+    split at h
+    · injection h with h; subst h
+      exact ⟨ho.len, fun i c hi hc => by
+        obtain ⟨k', h1, h2⟩ := ho.own i c hi hc
+        exact ⟨k', h1, live_append h2⟩⟩
+    · cases h
+  | construct k =>
+    simp only [S.sstep] at h
+    split at h
+    · rename_i hk
+      split at h
+      · rename_i h1 he; injection h with h; subst h
+        exact owned_push ho (new_slots he) (ctxLive_iff.mp hk)
+      · cases h
+    · cases h
+  | clone i k =>
+    simp only [S.sstep] at h
+    split at h
+    · rename_i hk
+      split at h
+      · rename_i h1 he; injection h with h; subst h
+        obtain ⟨o, hs⟩ := copy_slots he
+        exact owned_push ho hs (ctxLive_iff.mp hk)
+      · cases h
+    · cases h
+  | clear i =>
+    simp only [S.sstep] at h
+    split at h
+    · rename_i h1 he; injection h with h; subst h
+      have hs := dtor_slots he
+      constructor
+      · simp [hs, ho.len]
+      · intro j c hj hc
+        simp only at hj ⊢
+        rw [hs, List.getElem?_set] at hj
+        split at hj
+        · split at hj
+          · injection hj with hj; exact absurd hj.symm hc
+          · cases hj
+        · exact ho.own j c hj hc
+    · cases h
+  | give i k =>
+    simp only [S.sstep] at h
+    split at h
+    · rename_i hc
+      injection h with h; subst h
+      simp only [Bool.and_eq_true] at hc
+      have hk := ctxLive_iff.mp hc.1
+      constructor
+      · simp [ho.len]
+      · intro j c hj hcg
+        simp only at hj ⊢
+        rw [List.getElem?_set]
+        split
+        · rename_i hij
+          subst hij
+          have hlt : i < s.owner.length := by rw [ho.len]; exact getElem?_lt hj
+          exact ⟨k, by simp [hlt], hk⟩
+        · exact ho.own j c hj hcg
+    · cases h
+  | release k =>
+    simp only [S.sstep] at h
+    split at h
+    · split at h
+      · rename_i h1 he; injection h with h; subst h
+        obtain ⟨hl, hsl⟩ := destructWhere_slots _ _ _ _ _ he
+        constructor
+        · simp only; rw [hl]; exact ho.len
+        · intro j c hj hc
+          simp only at hj ⊢
+          obtain ⟨hj0, hnot⟩ := hsl j c hj hc
+          obtain ⟨k', hk1, hk2⟩ := ho.own j c hj0 hc
+          have hnd := hnot (getElem?_lt hj0) k' hk1
+          refine ⟨k', hk1, ?_⟩
+          simp [List.getElem?_mapIdx, hk2, hnd]
+      · cases h
+    · cases h
+
+theorem srun_owned {ops : List S.SOp} {s s' : S.SState} (ho : Owned s) (h : S.srun s ops = .ok s') : Owned s' := by
+  induction ops generalizing s with
+  | nil => simp only [S.srun] at h; injection h with h; subst h; exact ho
+  | cons op rest ih =>
+    simp only [S.srun] at h
+    split at h
+    · rename_i s1 h1; exact ih (sstep_owned ho op h1) h
+    · cases h
+
+/-- with no live context left, no handle is left -/
+theorem owned_allReleased_quiescent {s : S.SState} (ho : Owned s) (hr : S.allReleased s = true) : quiescent s.h = true := by
+  simp only [quiescent, List.all_eq_true]
+  intro x hx
+  obtain ⟨i, hi⟩ := List.mem_iff_getElem?.mp hx
+  by_cases hg : x = .gone
+  · subst hg; rfl
+  · obtain ⟨k, _, hk⟩ := ho.own i x hi hg
+    simp only [S.allReleased, List.all_eq_true] at hr
+    have hm : S.CtxSt.live ∈ s.ctxs := List.mem_iff_getElem?.mpr ⟨k, hk⟩
+    have := hr _ hm
+    simp at this
 
 end BlocV.Proofs.Handle
